@@ -244,6 +244,32 @@ fn field_sweeps(acc: &mut Acc) {
     }
 }
 
+/// Histories of length two on one thread: renderings at offsets that share a quarter hour, at +X / -X, on both sides
+/// of 1970 and of midnight, leap and ordinary seconds; and readings from ONE buffer that is overwritten in place with
+/// other text of the same length (valid after invalid, invalid after valid), so that a cache keyed by where the text
+/// lives instead of what it says gives itself away.
+fn history_pairs(acc: &mut Acc) {
+    let outs: Vec<(i64, u32, u32, i32)> = vec![
+        (-1, 0, 0, 0), (0, 0, 0, 0), (-1, 86_399, 0, 0), (-2, 0, 0, 0), (1, 0, 0, 0),
+        (16_484, 45_296, 123_400_000, 19_800), (16_484, 45_296, 123_400_000, 20_220), (16_484, 45_296, 0, -11_160), (16_484, 45_296, 0, -10_800),
+        (16_484, 45_296, 500_000, 720), (16_484, 45_296, 500_000, -720), (17_166, 86_399, 1_000_000_000, 0), (17_167, 0, 0, 0), (17_166, 86_399, 1_500_000_000, 3600),
+    ];
+    for &i in &pair_order(outs.len()) {
+        let (z, s, f, o) = outs[i];
+        output_one(acc, z, s, f, o);
+    }
+    let texts: [&str; 10] = [
+        "2014-02-28T23:59:59+00:00", "2014-02-30T23:59:59+00:00", "2015-02-28T23:59:59+00:00", "2014-02-28T23:59:59-00:30", "2014-02-28 23:59:60+00:00",
+        "2014-02-28T23:59:59+00:0x", "2014-02-28T24:00:00+00:00", "2014-02-28t23:59:59z00000", "2016-12-31T23:59:60.5Z000", "2014-02-28T23:59:59.5+0100",
+    ];
+    let mut buf = String::with_capacity(32);
+    for &i in &pair_order(texts.len()) {
+        buf.clear();
+        buf.push_str(texts[i]);
+        accept_one(acc, &buf, false);
+    }
+}
+
 fn short_strings(acc: &mut Acc, maxlen: usize) {
     let mut cur: Vec<String> = vec![String::new()];
     accept_one(acc, "", false);
@@ -348,6 +374,7 @@ fn main() {
             acc.traces += 1;
         } else {
             short_strings(acc, if tier == Tier::Thorough { 4 } else { 3 });
+            history_pairs(acc);
             acc.traces += 1;
         }
     });
